@@ -80,3 +80,26 @@ Proof.
   exists (Some (-9223372036 * NS)), (1790000000 * NS), (1790000000 * NS), (1790000000 * NS), (-9223372036 * NS).
   vm_compute. split; reflexivity.
 Qed.
+
+(* late second factors do not move the authenticated-at instant *)
+Lemma upgrades_keep_iat : forall levels s, fst (upgrades s levels) = fst s.
+Proof.
+  unfold upgrades. induction levels as [|l r IH]; intros s; simpl; [reflexivity|].
+  rewrite IH. reflexivity.
+Qed.
+
+Lemma ssh_bound_after_upgrades : forall maxc req s levels now1 now2 d,
+  0 < maxc < two64 * NS / 4 -> 0 <= fst s -> 0 <= now1 <= now2 -> now2 < two64 * NS / 4 ->
+  now1 < fst s + two64 * NS / 4 ->
+  handler_duration maxc req (fst (upgrades s levels)) now1 = Some d -> 0 <= d ->
+  snd (ssh_window now2 d) * NS <= fst s + maxc + (now2 - now1).
+Proof.
+  intros maxc req s levels now1 now2 d Hm Hi Hn Hn2 Hn1 Hd Hd0.
+  rewrite upgrades_keep_iat in Hd.
+  pose proof (ssh_bound maxc req (fst s) now1 now2 d Hm Hi Hn Hn2 Hn1 Hd) as B.
+  destruct (ssh_window now2 d) as [va vb]. cbn [snd].
+  destruct B as [_ [_ [_ [_ [B _]]]]]. destruct (B Hd0) as [_ [_ [B3 _]]]. exact B3.
+Qed.
+
+Lemma restamp_refuted : exists now s level, fst s < now /\ fst (upgrade_restamp now s level) = now.
+Proof. exists 100, (0, 2), 8. split; [reflexivity|reflexivity]. Qed.
